@@ -105,8 +105,17 @@ def run_ops(desc):
     sw_arg = sw.tolist() if (sw is not None and (desc["seed"] >> 8) % 3 == 0) else sw      # array-like means array-like
     w = IndexClassifierWrapper(clone(base), X, y, sw_arg, ignore_partial_fit=not native_pf, enforce_unique_samples=eus,
                                use_speed_up=speed, missing_label=ml)
+    comp = "IndexClassifierWrapper(%s)" % type(base).__name__
     if speed:
-        w.precompute(np.arange(n), np.arange(n))
+        try:
+            w.precompute(np.arange(n), np.arange(n))
+        except Exception as ex:
+            contracts.count("C19.multiset-replay-checker", 0)
+            contracts.count("C19.speed-up-equivalence", 0)
+            return {"status": "ok", "nontrivial": False, "cells": ["kind=%s" % kind], "monitors": contracts.drain_evals(),
+                    "violations": [{"component": comp, "kind": "raises:%s" % type(ex).__name__, "trigger": "any",
+                                    "detail": "precompute with use_speed_up=True (kind %s): %s" % (kind, str(ex)[:200])}],
+                    "observed": {"kind": kind}}
     cur = basem = None          # multisets: lists of (idx, label, weight)
     ref_pf = ref_pf_base = None  # native partial_fit reference objects
     ops, viol = [], []
